@@ -248,6 +248,115 @@ def collapseCost (ninf pinf : α) (addc : α → Nat → α) (hist : List (List 
     | .error e => .error e
     | .ok res => .ok (costMaskStep res m)
 
+/-! ### the mask as the Python OBJECT it is: spelling of the values, in-place normalisation, `results == mask`
+
+`collapse_cost` ends with `return {} if results == mask else results` (l.333).  `results` comes out of
+`interval_overlap` and is a dict of LISTS of TUPLES; `mask` is the caller's dict.  Python's `==` between a list of tuples
+and the caller's value is true only when that value is itself a list whose entries are tuples with equal numbers.  A mask
+given in the documented bare form `{k: (lo, hi)}` passes that test only because `interval_overlap` (tools.py l.928-931,
+the loop over `bounds2`) has REPLACED the value by `[(lo, hi)]` inside the caller's dict before l.333 is reached.  The
+model below keeps exactly the part of the spelling that `==` can see, performs the replacement, and compares against the
+replaced object. -/
+
+/-- one value of the caller's mask dict together with what `==` against a list of tuples can see of its spelling:
+`outerList`: the value itself is a `list` (for a bare interval: `[lo, hi]` rather than `(lo, hi)`);
+`innerTuples`: every interval inside a list / tuple of intervals is a `tuple` (irrelevant for a bare interval) -/
+structure SVal (α : Type) where
+  val : CVal α
+  outerList : Bool
+  innerTuples : Bool
+
+/-- the interval list a value stands for -/
+def SVal.ivs (s : SVal α) : Ivs α :=
+  match s.val with
+  | .list l => l
+  | .flat lo hi => [(lo, hi)]
+  | .bad => []
+
+/-- tools.py l.928-931 for one value of `bounds2`: `if not hasattr(v[0], '__len__'): bounds2[k] = [v]` - the bare interval
+becomes a LIST holding the caller's own object `v` (a tuple when it was `(lo, hi)`, a list when it was `[lo, hi]`);
+values that already are sequences of intervals are left as they are (a tuple of intervals stays a tuple) -/
+def SVal.norm (s : SVal α) : SVal α :=
+  match s.val with
+  | .flat lo hi => { val := .list [(lo, hi)], outerList := true, innerTuples := !s.outerList }
+  | _ => s
+
+/-- Python `r == v` for `r` a list of tuples (a value of `results`) and `v` a value of the mask object -/
+def SVal.pyEq (r : Ivs α) (s : SVal α) : Bool :=
+  match s.val with
+  | .list l => s.outerList && s.innerTuples && ivsEq r l
+  | _ => false
+
+/-- the documented spellings: a bare `(lo, hi)` tuple, a list of tuples -/
+def SVal.documented (s : SVal α) : Bool :=
+  match s.val with
+  | .flat _ _ => !s.outerList
+  | .list _ => s.outerList && s.innerTuples
+  | .bad => false
+
+/-- a validated mask object: keys `None` / int, values with their spelling -/
+abbrev SDict (α : Type) := List (Option Int × SVal α)
+
+/-- the caller's dict after `interval_overlap` has run over it -/
+def SDict.norm (m : SDict α) : SDict α := m.map fun kv => (kv.1, kv.2.norm)
+
+/-- the interval content -/
+def SDict.bd (m : SDict α) : BDict α := m.map fun kv => (kv.1, kv.2.ivs)
+
+/-- `results == mask` (l.333) against the object as it is at that moment.  `fresh` = the bounds found by the scan: for a
+key the scan did NOT report, `interval_overlap` put the mask's own object into `results` (tools.py l.946-947
+`results[k] = bounds2[k]`), which compares equal to itself whatever its spelling; for a key the scan reported the value
+is a new list of tuples out of `_interval_intersection` -/
+def sdictEq (fresh r : BDict α) (m : SDict α) : Bool :=
+  r.length == m.length && r.all fun kv => match (m.find? fun e => e.1 == kv.1) with
+    | some e => if (bLookup fresh kv.1).isNone = true then true else SVal.pyEq kv.2 e.2
+    | none => false
+
+/-- l.324-333 on the mask OBJECT: normalise in place (inside `interval_overlap`), intersect, compare with the object -/
+def costMaskStepS (results : BDict α) (m : SDict α) : BDict α :=
+  if sdictEq results ((overlap results m.norm.bd).map fun kv =>
+      if kv.2.isEmpty = true then (kv.1, (bLookup m.norm.bd kv.1).getD []) else kv) m.norm = true then []
+  else (overlap results m.norm.bd).map fun kv =>
+      if kv.2.isEmpty = true then (kv.1, (bLookup m.norm.bd kv.1).getD []) else kv
+
+/-- the mask argument with spellings: `None`, a dict, anything else -/
+inductive CMaskS (α : Type) where
+  | none
+  | other
+  | dict (es : List (CKey × SVal α))
+
+/-- forget the spelling (what the validation l.259-285 looks at) -/
+def CMaskS.erase : CMaskS α → CMask α
+  | .none => .none
+  | .other => .other
+  | .dict es => .dict (es.map fun kv => (kv.1, kv.2.val))
+
+/-- the entries with a valid key -/
+def keyedS (es : List (CKey × SVal α)) : SDict α :=
+  es.filterMap fun kv => match kv.1 with
+    | .none => some (none, kv.2)
+    | .int i => some (some i, kv.2)
+    | .bad => Option.none
+
+/-- `collapse_cost` with the mask as an object: validation (l.259-285), scan (l.286-323), mask step on the object -/
+def collapseCostS (ninf pinf : α) (addc : α → Nat → α) (hist : List (List α)) (costs : List α)
+    (perms : Option (List (List Nat))) (clip : Bool) (limit : α) (samples : Option Int) (mask : CMaskS α) :
+    Except Err (BDict α) :=
+  match checkCMask mask.erase with
+  | .error e => .error e
+  | .ok _ =>
+    match collapseCostCore ninf pinf addc hist costs perms clip limit samples with
+    | .error e => .error e
+    | .ok res =>
+      match mask with
+      | .dict es => .ok (costMaskStepS res (keyedS es))
+      | _ => .ok res
+
+/-- the caller's mask object after a successful call -/
+def maskAfter : CMaskS α → SDict α
+  | .dict es => (keyedS es).norm
+  | _ => []
+
 /-! ### the conditions of the theorems, evaluated by the driver on every case -/
 
 /-- the intervals are non-degenerate and each one ends before (or where) the next one starts -/
